@@ -95,3 +95,36 @@ Theorem c03_rename_refuted :
   build [ins_z_a; chain [("T:s.b", "T:s.c"); ("T:s.a", "T:s.b")]] = ErrNetworkX.
 Proof. split; [eexists; split; reflexivity|reflexivity]. Qed.
 Print Assumptions c03_rename_refuted.
+
+(** * Transfer to the full graph model.
+    Holder/TableLevel.v (about which the theorems above speak) is the dataset-level projection of the full model of
+    SQLLineageHolder._build_digraph (Holder/Build.v on NX/Graph.v, the one tied to the implementation's graphs and used
+    by C04 C06 C11 C18): one step simulates one step, hence whole scripts, and the three role accessors agree
+    (Holder/Refinement.v; [abs_holder] is the abstraction the harness applies to real holders, now defined and proved in
+    Coq).  [all_wf] (executable; evaluated on the implementation's holders on every run) states what the correspondence
+    needs; each condition is justified by a counterexample in Holder/RefineDefs.v. *)
+From SV Require Holder.Refinement.
+Module R := SV.Holder.Refinement.
+Module RD := SV.Holder.RefineDefs.
+Module B := SV.Holder.Build.
+
+Theorem c03_full_model_refines : forall p hs, R.all_wf hs ->
+  match B.build p hs, build (map RD.abs_holder hs) with
+  | B.BOk g, Ok s =>
+      map RD.key (B.source_tables g) = sources s /\
+      map RD.key (B.target_tables g) = targets s /\
+      map RD.key (B.intermediate_tables g) = intermediates s
+  | B.ErrNetworkX, ErrNetworkX => True
+  | _, _ => False
+  end.
+Proof. exact R.roles_refine. Qed.
+Print Assumptions c03_full_model_refines.
+
+(** e.g. the source classification of the property, now about the full model *)
+Theorem c03_roles_source_full_model : forall p hs g t,
+  R.all_wf hs ->
+  Forall plain (map RD.abs_holder hs) -> Forall wf (map RD.abs_holder hs) ->
+  B.build p hs = B.BOk g ->
+  (In t (map RD.key (B.source_tables g)) <-> spec_source (map RD.abs_holder hs) t).
+Proof. exact R.transfer_roles_source. Qed.
+Print Assumptions c03_roles_source_full_model.
